@@ -117,6 +117,7 @@ type Exec struct {
 	topFrame    *Frame
 	cfgCache    map[*ssa.Function]*cfgInfo
 	lockMode    bool
+	havocFor    string // contract key whose modifies clause is being applied
 	loopLocks   map[loopKey][]autoInv
 	guardMode   bool
 	freshRefs   map[*Term]bool
